@@ -21,6 +21,8 @@ func main() {
 	switch os.Args[1] {
 	case "win":
 		cmdWin(os.Args[2:])
+	case "seq":
+		cmdSeq(os.Args[2:])
 	default:
 		fmt.Fprintln(os.Stderr, "unknown subcommand", os.Args[1])
 		os.Exit(2)
@@ -89,4 +91,63 @@ func cmdWin(args []string) {
 func fatal(err error) {
 	fmt.Fprintln(os.Stderr, "FATAL:", err)
 	os.Exit(2)
+}
+
+func cmdSeq(args []string) {
+	fs := flag.NewFlagSet("seq", flag.ExitOnError)
+	scen := fs.String("scen", "", "scenario ndjson file")
+	out := fs.String("out", "", "trace ndjson output")
+	par := fs.Int("par", 16, "parallel instances")
+	fs.Parse(args)
+	f, err := os.Open(*scen)
+	if err != nil {
+		fatal(err)
+	}
+	var scs []drv.SeqScenario
+	rd := bufio.NewScanner(f)
+	rd.Buffer(make([]byte, 1<<20), 1<<26)
+	for rd.Scan() {
+		var sc drv.SeqScenario
+		if err := json.Unmarshal(rd.Bytes(), &sc); err != nil {
+			fatal(err)
+		}
+		scs = append(scs, sc)
+	}
+	f.Close()
+	res := make([][]drv.Ev, len(scs))
+	inc := make([]string, len(scs))
+	var wg sync.WaitGroup
+	sem := make(chan struct{}, *par)
+	for i := range scs {
+		wg.Add(1)
+		sem <- struct{}{}
+		go func(i int) {
+			defer wg.Done()
+			defer func() { <-sem }()
+			defer func() {
+				if r := recover(); r != nil {
+					res[i] = []drv.Ev{{"tr": scs[i].Tr, "e": "reset"}, {"tr": scs[i].Tr, "e": "panic", "msg": fmt.Sprint(r)}, {"tr": scs[i].Tr, "e": "quiesce"}}
+				}
+			}()
+			res[i], inc[i] = drv.RunSeq(scs[i])
+		}(i)
+	}
+	wg.Wait()
+	of, err := os.Create(*out)
+	if err != nil {
+		fatal(err)
+	}
+	nInc := 0
+	for i := range scs {
+		if inc[i] != "" {
+			nInc++
+			fmt.Printf("INCONCLUSIVE tr=%d %s\n", scs[i].Tr, inc[i])
+			continue
+		}
+		if err := drv.WriteTrace(of, res[i]); err != nil {
+			fatal(err)
+		}
+	}
+	of.Close()
+	fmt.Printf("RAN scenarios=%d inconclusive=%d\n", len(scs), nInc)
 }
